@@ -5,6 +5,7 @@
 mod conv;
 mod engine;
 mod gen;
+mod img;
 mod opsir;
 mod pduconv;
 mod props;
